@@ -100,7 +100,8 @@ type RangeIter struct {
 	isS  bool
 }
 
-// ChanV etc. unsupported.
+// ChanV is an opaque channel handle (no channel semantics).
+type ChanV struct{ id int }
 
 // ---------- helpers ----------
 
